@@ -84,6 +84,13 @@ theorem C06_header_word_roundtrip_compressed_as_written (c u crc : BitVec 32) (s
   · have : u.toNat ≠ 0 := fun e => hz (BitVec.eq_of_toNat_eq (by simpa using e))
     rw [if_neg this, if_neg hz]
 
+/-- the decoder as written reads as many header bytes as the encoder as written hands to `writeHeaderDataAndCrc`: 3 without a
+    compressor, 5 with one -/
+theorem C06_header_lengths_agree_as_written (l c u : BitVec 32) (sc : Bool) :
+    Gen.GoFn.headerLength true = (Gen.GoFn.encodeHeaderUncompressed l sc).2 ∧
+    Gen.GoFn.headerLength false = (Gen.GoFn.encodeHeaderCompressed c u sc).2 := by
+  constructor <;> cases sc <;> rfl
+
 /-- the header encoders as written read exactly the length fields and the self-contained flag of the header they are given -/
 theorem C06_header_encoders_read :
     Gen.GoFn.encodeHeaderUncompressed_reads = ["header_UncompressedPayloadLength", "header_IsSelfContained"] ∧
